@@ -110,14 +110,22 @@ def render_line(st: dict, k: str, n: int, sheb_idx: int = 0) -> str:
     raise ValueError(k)
 
 
-def render_body(st: dict, body: list, eol: str, final_nl: bool, bom: bool, sheb_idx: int = 0, tws_line: int = 0) -> tuple:
-    """-> (bytes, [line strings])"""
+def render_body(st: dict, body: list, eol: str, final_nl: bool, bom: bool, sheb_idx: int = 0, tws_line: int = 0,
+                quote: bool = False) -> tuple:
+    """-> (bytes, [line strings]).  quote: a code line above the first one-line tagged comment carries that comment's
+    exact bytes inside a string literal (still a code line: to be kept byte for byte)."""
     lines = []
     for i, ln in enumerate(body, 1):
         s = render_line(st, ln["k"], ln["id"] if ln["id"] else i, sheb_idx)
         if tws_line == i and ln["k"] in ("code", "sc", "fc"):
             s += "   "
         lines.append(s)
+    if quote:
+        j = next((i for i, ln in enumerate(body) if ln["k"] in ("sct", "monet")), None)
+        i = next((i for i, ln in enumerate(body[:j or 0]) if ln["k"] in ("code", "icode")), None)
+        if j is not None and i is not None:
+            n = body[i]["id"] or i + 1
+            lines[i] = ("    " if body[i]["k"] == "icode" else "") + f'value{n} := "' + lines[j] + '";'
     if body and body[-1]["k"] == "blank":
         final_nl = True          # otherwise the last (empty) line would not exist
     text = eol.join(lines) + (eol if final_nl and lines else "")
